@@ -88,7 +88,12 @@ func ruleM1(c *Ctx, id string) {
 			if !isk {
 				continue
 			}
-			mx, okm := acceptedMax(br.Cond.Op, k)
+			// read the test as "rejects when ...": the side that goes straight to 'return false' is the refusing one
+			rop := br.Cond.Op
+			if tR, fR := straightToFalse(br.True), straightToFalse(br.False); fR && !tR {
+				rop = negOp(rop) // "if len <= MAX { go on } else { refuse }" refuses len > MAX
+			}
+			mx, okm := acceptedMax(rop, k)
 			if !okm {
 				continue
 			}
@@ -646,4 +651,41 @@ func ruleM7(c *Ctx, id string) {
 	}
 	limit := uint64(nd+nb+nb*nb) * uint64(bs)
 	R.Check(v <= limit && v > 0, id, "inode.MaxFileSize|addressable", P.Pos(mf.Pos()), fmt.Sprintf("MaxFileSize() = %d bytes <= %d bytes = (NDIRECT + NBLKBLK + NBLKBLK^2) * BlockSize", v, limit), "folded constant within the block map's range", fmt.Sprintf("MaxFileSize() = %d exceeds the %d bytes the block map can address: a request in the last announced block makes indbmap index past the end of an index block - the server panics", v, limit))
+}
+
+// straightToFalse: from b a return of the constant false is reached without
+// passing another test.
+func straightToFalse(b *ssa.BasicBlock) bool {
+	for i := 0; i < 4 && b != nil; i++ {
+		switch x := b.Instrs[len(b.Instrs)-1].(type) {
+		case *ssa.Return:
+			for _, r := range x.Results {
+				if bv, isb := constBool(r); isb && !bv {
+					return true
+				}
+				// a shared return fed by a phi: the value coming from b's chain is not known here
+			}
+			return false
+		case *ssa.Jump:
+			nb := b.Succs[0]
+			// a shared return block whose phi takes false along this edge
+			if r, ok := nb.Instrs[len(nb.Instrs)-1].(*ssa.Return); ok {
+				for _, res := range r.Results {
+					if ph, isP := res.(*ssa.Phi); isP && ph.Block() == nb {
+						for j, p := range nb.Preds {
+							if p == b {
+								if bv, isb := constBool(ph.Edges[j]); isb && !bv {
+									return true
+								}
+							}
+						}
+					}
+				}
+			}
+			b = nb
+		default:
+			return false
+		}
+	}
+	return false
 }
